@@ -70,7 +70,8 @@ RawTables(t) ==
 RawTree(op, tps) ==
     LET Q(r) == RawQR(r, tps)
         M(r) == RawMM(r, tps)
-    IN NMap(<<KeyNode(0), NMap(<<KeyNode(0), NArr(<<NUint(<<>>), NUint(<<>>)>>), KeyNode(1), NUint(FromInt(op.bpi))>>)>>
+    IN NMap(<<KeyNode(0), NMap(<<KeyNode(0), NArr(<<NUint(<<>>), NUint(<<>>)>>)>>
+                                \o (IF "noidx" \in DOMAIN op /\ op.noidx THEN <<>> ELSE <<KeyNode(1), NUint(FromInt(op.bpi))>>))>>
             \o (IF "stats" \in DOMAIN op THEN <<KeyNode(1), MapOfRec(op.stats, StatSpecs)>> ELSE <<>>)
             \o <<KeyNode(2), RawTables(op.tables)>>
             \o <<KeyNode(3), Arr(ListOf(op, "qrs"), Q)>>
@@ -82,7 +83,7 @@ RawModelBlock(op, bps) ==
     LET tps == bps[op.bpi + 1].tps
         tree == RawTree(op, tps)
         d == DenBlock(tree, bps)
-    IN [bpi |-> op.bpi, qrs |-> d.qrs, mms |-> d.mms,
+    IN [bpi |-> op.bpi, bp |-> bps[op.bpi + 1], qrs |-> d.qrs, mms |-> d.mms,
         aecs |-> [i \in 1..Len(d.aecs) |-> [key |-> AECKey(d.aecs[i]), n |-> 1]],
         stats |-> IF "stats" \in DOMAIN op /\ (Len(d.qrs) + Len(d.aecs) + Len(d.mms)) > 0 THEN <<op.stats>> ELSE <<>>,
         et |-> <<>>, raw |-> TRUE]
